@@ -226,6 +226,11 @@ def shapes():
         # and never takes the next token as its value, '--o' is the option
         ('sum(option_long_o,prod(arg_s,switch_short_o))', sum_('lg', opt('lc', '', 'o', 'Str'), prod(A('la', 'Str'), sw('lb', 'o', 'other')))),
         ('sum(prod(arg_s,switch_short_o),option_long_o)', sum_('lg', prod(A('la', 'Str'), sw('lb', 'o', 'other')), opt('lc', '', 'o', 'Str'))),
+        # a strictly typed many() with a laxer positional consumer to its right: a token the typed argument cannot
+        # convert is a hard error of that round - it is not handed on to the next parser
+        ('prod(many(arg),many(arg_s))', prod(many(A()), many(A('le', 'Str')))),
+        ('prod(many(arg),arg_s)', prod(many(A()), A('le', 'Str'))),
+        ('prod(many(arg_unsigned),optional(arg_s))', prod(many(A('la', 'Unsigned')), optional(A('le', 'Str')))),
         ('commands', cmds()),
         ('optional(commands)', optional(cmds())),
         ('commands(switch;c1:prod(switch,arg);c2:optional(option))', commands(sw('lb', 'v', 'verbose'), [('c1', 't1', prod(sw('lf', 'f', 'flag'), A())), ('c2', 't2', optional(opt_o()))])),
